@@ -133,6 +133,11 @@ func embeddings(c c12Case) (value, discard map[string][]string) {
 			value["operand2"] = []string{"((" + e + ") + 0) * 1"}
 			value["operand3"] = []string{"(0 + ((" + e + ") * 1 - 0)) | 0"}
 			value["index"] = []string{"[" + e + "][(0 + 0) * 1]"}
+		case "float":
+			// (multiplying by one and subtracting zero keep every float, the sign of zero and NaN included)
+			value["operand1"] = []string{"1 * (" + e + ")"}
+			value["operand2"] = []string{"((" + e + ") - 0) * 1"}
+			value["operand3"] = []string{"1 * (1 * ((" + e + ") * 1))"}
 		case "bool":
 			value["operand1"] = []string{"(" + e + ") & true"}
 			value["operand2"] = []string{"((" + e + ") | false) && true"}
@@ -374,7 +379,20 @@ func c12Prop(rec *ev.Recorder) func(t *rapid.T) {
 			return
 		}
 		c := c12Case{Pre: pre}
-		switch rapid.IntRange(0, 10).Draw(t, "skind") {
+		switch rapid.IntRange(0, 11).Draw(t, "skind") {
+		case 11:
+			// a float and a run of integer constants: every intermediate sum rounds, so the
+			// constants cannot be combined; the same text must round the same way in every position
+			f := rapid.SampledFrom([]string{"9007199254740992.0", "9007199254740993.0", "4503599627370497.5", "0.559", "0.1", "0.7", "1.1", "zzbig", "zzfrac", "(0.0 - 9007199254740992.0)", "2.5"}).Draw(t, "float")
+			op := rapid.SampledFrom([]string{"+", "-"}).Draw(t, "chainop")
+			c.Pre = append(c.Pre, "zzbig = 9007199254740992.0", "zzfrac = 0.559")
+			c.S, c.Typ = f, "float"
+			for n := rapid.IntRange(2, 4).Draw(t, "consts"); n > 0; n-- {
+				if rapid.IntRange(0, 5).Draw(t, "mixop") == 0 {
+					op = map[string]string{"+": "-", "-": "+"}[op]
+				}
+				c.S += " " + op + " " + fmt.Sprint(rapid.IntRange(1, 9).Draw(t, "const"))
+			}
 		case 10:
 			// negations of comparisons, over numbers that include NaN and infinities
 			num := func() string {
